@@ -206,7 +206,7 @@ func knownClass(d *DataJ, q QueryJ) string {
 	}
 	// K10: grouped aggregation (by / without) directly over a vector-vector operator of which exactly one operand
 	// contains a range-function call: the answer is empty
-	k10, k10b := false, false
+	k10, k10b, k10c := false, false, false
 	parser.Inspect(expr, func(node parser.Node, _ []parser.Node) error {
 		a, ok := node.(*parser.AggregateExpr)
 		if !ok || (len(a.Grouping) == 0 && !a.Without) {
@@ -227,6 +227,10 @@ func knownClass(d *DataJ, q QueryJ) string {
 		if hasRangeCall(b.LHS) != hasRangeCall(b.RHS) {
 			k10 = true
 		}
+		// K10c: ... or the aggregation is "without ()" (empty list) in a range query: the answer is empty
+		if a.Without && len(a.Grouping) == 0 && !instant {
+			k10c = true
+		}
 		// K10b: ... or the operator has an on/ignoring modifier (the grouping is applied to the operands before they are
 		// matched, label differences outside the by-list are lost)
 		if vm := b.VectorMatching; vm != nil && (vm.On || len(vm.MatchingLabels) > 0) {
@@ -239,6 +243,9 @@ func knownClass(d *DataJ, q QueryJ) string {
 	}
 	if k10b {
 		return "grouped_aggregation_over_operator_with_on_or_ignoring"
+	}
+	if k10c {
+		return "aggregation_without_empty_list_over_vector_operator"
 	}
 	// K11: instant query, a selector with a negative offset below two or more nested operators / aggregations (at least
 	// one binary operator): the answer carries the timestamp t+|offset| or is empty
